@@ -211,6 +211,8 @@ func runC18(c *Ctx) {
 	offeredAuthorizationKept(c, "R4")
 	lockQueryEncoded(c, "R1")
 	verifyUsesOnlyVerifyAction(c, "R4")
+	newTransferCopiesServerFields(c, "R2")
+	extraHeadersAreAdded(c, "R4")
 	// ---- R2 first: which Transfer fields are set on request objects --------------------------
 	setFields := map[string]bool{}
 	tt := p.Fn("tq", "(batch).ToTransfers")
